@@ -18,3 +18,15 @@ package compile
 //@   modifies *
 //@   callsite (*compile.compiler).OpArg kind: arg(1) == nameOpcode(scope, old(c.SymTable.Type), old(c.SymTable.Unoptimized), ctx)
 //@   callsite (*compile.compiler).OpArg scope: scope == ite(old(has(c.SymTable.Symbols, name)), old(c.SymTable.Symbols[name].Scope), symtable.ScopeInvalid)
+
+// ---- panics of the code generator carry the exception they were raised with (C11) ----
+// compileAst recovers every panic and turns it into the returned error with py.MakeException, which keeps a
+// *py.Exception / py.ExceptionInfo as it is and wraps anything else into a SystemError.
+
+//@ func (*compiler).newCompilerScope(c, compilerScope, Ast, private) (newC)
+//@   modifies *
+//@   callsite @panic#3 same: arg(0) == err
+
+//@ func (*compiler).panicSyntaxErrorf(c, Ast, format, a)
+//@   modifies *
+//@   callsite py.ExceptionNewf class: arg(0) == py.SyntaxError
